@@ -132,8 +132,27 @@ def build_memo(p, w, memo):
 def make_cases(rng, tier):
     n = 500 if tier == "quick" else 8000
     cases, bad = [], []
-    for _ in range(n):
-        p, _c = mp.gen_mprog(rng, rng.choice([2, 3, 4, 5, 7, 9]), p_mat=0.2, p_xfer=0.25, p_opts=0.7)
+    forced = []
+    k1, k2 = K(1), K(2)
+    for src in mp.ENGINES:
+        for mid in mp.ENGINES:
+            if mid == src:
+                continue
+            # a materialization right above a transfer (only markers in between), then calls that prefer the engine the
+            # transfer left: nothing may be inserted below the locked node
+            leaf = ("leaf", 1, src, [k1, k2], [{k1: 1, k2: 2}, {k1: 3, k2: 4}], (0, None))
+            locked = ("mat", 7, ("xfer", mid, leaf))
+            other = ("leaf", 2, src, [k1], [{k1: 1}], (0, None))
+            for bt, tr in ((True, False), (True, True)):
+                forced.append(("un", ("sel", ("cmp", "gt", ("ref", k1), ("lit", 0))), (src, bt, tr, False), locked))
+                forced.append(("un", ("calc", K(5), ("add", ("ref", k1), ("lit", 1))), (src, bt, tr, False), locked))
+                forced.append(("un", ("proj", [k1]), (src, bt, tr, False), locked))
+                forced.append(("join", None, bt, tr, locked, other))
+    for it in range(n + len(forced)):
+        if it < len(forced):
+            p = forced[it]
+        else:
+            p, _c = mp.gen_mprog(rng, rng.choice([2, 3, 4, 5, 7, 9]), p_mat=0.2, p_xfer=0.25, p_opts=0.7)
         w = mp.World()
         memo = {}
         try:
